@@ -227,91 +227,4 @@ mod verif_proofs {
         vk_cover!(i >= 64, "second word used");
         std::mem::forget(r);
     }
-
-    fn gn(s: &'static str) -> GlyphName { GlyphName::new(s) }
-
-    /// pre-pass 1: two rules on the same region are merged with the EARLIER rule taking precedence on a shared glyph;
-    /// rules on different regions are kept apart, in order
-    #[cfg_attr(kani, kani::proof)]
-    #[cfg_attr(kani, kani::unwind(6))]
-    #[cfg_attr(kani, kani::stub(<Tag as VkPartialOrd>::partial_cmp, tag_pcmp_stub))]
-    #[cfg_attr(kani, kani::stub(<Tag as VkOrd>::cmp, tag_cmp_stub))]
-    #[cfg_attr(kani, kani::stub(<Tag as VkPartialEq<Tag>>::eq, tag_eq_stub))]
-    pub(super) fn c16_merge_same_region_precedence() {
-        let (b0, b1) = (sbox(1), sbox(1));
-        let same = b0 == b1;
-        let s0: BTreeMap<GlyphName, GlyphName> = BTreeMap::from([(gn("a"), gn("x"))]);
-        let s1: BTreeMap<GlyphName, GlyphName> = BTreeMap::from([(gn("a"), gn("y"))]);
-        let out = merge_same_region_rules(vec![(Region(vec![b0]), s0.clone()), (Region(vec![b1]), s1.clone())]);
-        if same {
-            assert!(out.len() == 1, "VK_ASSERT equal_regions_are_merged");
-            assert!(out[0].1.get(&gn("a")) == Some(&gn("x")), "VK_ASSERT earlier_rule_takes_precedence_on_equal_regions");
-        } else {
-            assert!(out.len() == 2 && out[0].1 == s0 && out[1].1 == s1, "VK_ASSERT different_regions_stay_apart_in_rule_order");
-        }
-        vk_cover!(same, "equal regions");
-        vk_cover!(!same, "different regions");
-        std::mem::forget(out); std::mem::forget(s0); std::mem::forget(s1);
-    }
-
-    /// pre-pass 2: rules with identical substitutions are merged into one rule whose region is the union, first position kept
-    #[cfg_attr(kani, kani::proof)]
-    #[cfg_attr(kani, kani::unwind(6))]
-    #[cfg_attr(kani, kani::stub(<Tag as VkPartialOrd>::partial_cmp, tag_pcmp_stub))]
-    #[cfg_attr(kani, kani::stub(<Tag as VkOrd>::cmp, tag_cmp_stub))]
-    #[cfg_attr(kani, kani::stub(<Tag as VkPartialEq<Tag>>::eq, tag_eq_stub))]
-    pub(super) fn c16_merge_same_sub_rules() {
-        let (b0, b1) = (sbox(1), sbox(1));
-        let same_subs = vk::any_bool();
-        let s0: BTreeMap<GlyphName, GlyphName> = BTreeMap::from([(gn("a"), gn("x"))]);
-        let s1: BTreeMap<GlyphName, GlyphName> = if same_subs { s0.clone() } else { BTreeMap::from([(gn("b"), gn("y"))]) };
-        let out = merge_same_sub_rules(vec![(Region(vec![b0.clone()]), s0.clone()), (Region(vec![b1.clone()]), s1.clone())]);
-        if same_subs {
-            assert!(out.len() == 1 && out[0].1 == s0, "VK_ASSERT identical_substitutions_are_merged");
-            assert!(out[0].0.0.len() == 2 && out[0].0.0[0] == b0 && out[0].0.0[1] == b1, "VK_ASSERT merged_region_is_the_union_of_boxes");
-        } else {
-            assert!(out.len() == 2 && out[0].1 == s0 && out[1].1 == s1 && out[0].0.0[0] == b0 && out[1].0.0[0] == b1, "VK_ASSERT different_substitutions_stay_apart_in_rule_order");
-        }
-        vk_cover!(same_subs, "identical substitutions");
-        std::mem::forget(out); std::mem::forget(s0); std::mem::forget(s1);
-    }
-
-    /// The whole overlay on the smallest non-trivial instance: 2 rules, one box each on one axis, symbolic
-    /// bounds, a probe strictly between grid lines. The first output box containing the probe must carry
-    /// exactly the substitutions of the rules whose box contains the probe, in rule order.
-    #[cfg_attr(kani, kani::proof)]
-    #[cfg_attr(kani, kani::unwind(6))]
-    #[cfg_attr(kani, kani::stub(<Tag as VkPartialOrd>::partial_cmp, tag_pcmp_stub))]
-    #[cfg_attr(kani, kani::stub(<Tag as VkOrd>::cmp, tag_cmp_stub))]
-    #[cfg_attr(kani, kani::stub(<Tag as VkPartialEq<Tag>>::eq, tag_eq_stub))]
-    pub(super) fn c16_overlay_whole_2rules_1axis() {
-        let t = Tag::new(b"wght");
-        let (b0, b1) = (sbox(1), sbox(1));
-        vk::assume(b0 != b1);
-        let k = vk::any_i8_in(-4, 3);
-        let p = NormalizedCoord::new((2 * k as i32 + 1) as f64 / 8.0);
-        let s0: BTreeMap<GlyphName, GlyphName> = BTreeMap::from([(GlyphName::new("a"), GlyphName::new("b"))]);
-        let s1: BTreeMap<GlyphName, GlyphName> = BTreeMap::from([(GlyphName::new("c"), GlyphName::new("d"))]);
-        let inb = |b: &NBox| { let (lo, hi) = b.get(t); lo <= p && p <= hi };
-        let (in0, in1) = (inb(&b0), inb(&b1));
-        let out = overlay_feature_variations(vec![(Region(vec![b0]), s0.clone()), (Region(vec![b1]), s1.clone())]);
-        let mut found: Option<&Vec<BTreeMap<GlyphName, GlyphName>>> = None;
-        let mut i = 0;
-        while i < out.len() {
-            if inb(&out[i].0) { found = Some(&out[i].1); break; }
-            i += 1;
-        }
-        match found {
-            None => assert!(!in0 && !in1, "VK_ASSERT a_rule_contains_the_point_but_no_box_does"),
-            Some(l) => {
-                let n = in0 as usize + in1 as usize;
-                assert!(l.len() == n, "VK_ASSERT first_matching_box_carries_exactly_the_matching_rules");
-                if in0 { assert!(l[0] == s0, "VK_ASSERT earlier_rule_first"); }
-                if in1 { assert!(l[n - 1] == s1, "VK_ASSERT later_rule_last"); }
-            }
-        }
-        vk_cover!(in0 && in1, "probe inside both rules");
-        vk_cover!(in0 && !in1, "probe inside the first rule only");
-        std::mem::forget(out); std::mem::forget(s0); std::mem::forget(s1);
-    }
 }
